@@ -82,3 +82,19 @@ def build(X):
     ap.rewrites.append({"rule": "slice", "what": "body of the (Single, Single) arm of the column merge in append() wrapped as a function of the fields the patterns bind "
                         "(the bottom column's target fields are parameters whether or not the pattern binds them: %s on this tree)" % ("bound" if binds_b else "not bound")})
     return PRELUDE + lc.text + "\n" + ps.text + "\n" + ap.text + "\n} // verus!\nfn main() {}\n"
+
+
+# ----------------------------------------------------------------------------- thorough tier: the sentence of C16 checked on the RQ of a corpus of programs
+SWEEP_DOC = ("20 programs (two levels of nested join operands, group / window, append chains, loop, a let-table referenced twice, exclusions, s-strings, anti-join, set "
+             "operations) compiled by the real prqlc with --debug-log; tools/rqcheck.py checks on the logged RQ: every column id defined exactly once and before use in its "
+             "own pipeline, every table id declared earlier, every pipeline From .. Select with the arity of its relation")
+
+
+def sweep():
+    import rqcheck
+    return rqcheck.sweep("rq_shape.PS1")
+
+
+def rerun(doc):
+    import rqcheck
+    return rqcheck.rerun(doc)
